@@ -84,6 +84,8 @@ func run(c *checks.Ctx) (code int) {
 		err = checks.RunC16(c)
 	case "C17":
 		err = checks.RunC17(c)
+	case "selftest":
+		err = checks.RunSelftest(c)
 	default:
 		fmt.Println("unknown property", c.Prop)
 		return checks.ExitHarness
